@@ -11,8 +11,9 @@ EXTENDS CborItems, Json, IOUtils, TLC, Integers
 
 TraceLog == ndJsonDeserialize(IOEnv.TRACE)
 Judge == IOEnv.VERIF_JUDGE        \* "C04": ownership clauses; "C12": container clauses
-VARIABLE l
-tvars == <<ivars, l>>
+VARIABLES l,
+          cost          \* id -> reallocations the allocator saw while this container was being inserted into (C12)
+tvars == <<ivars, l, cost>>
 
 Range(s) == {s[k] : k \in 1..Len(s)}
 AllIds == UNION {{n.id : n \in Range(TraceLog[k].state)} : k \in {k \in 1..Len(TraceLog) : TraceLog[k].e = "op"}}
@@ -25,7 +26,7 @@ IsOp(name) == l <= Len(TraceLog) /\ TraceLog[l].e = "op" /\ TraceLog[l].name = n
 
 Blank == /\ live = {} /\ item = [i \in AllIds |-> Dead] /\ client = [i \in AllIds |-> 0]
          /\ bad = FALSE /\ grows = [i \in AllIds |-> 0] /\ ret = 0
-TInit == Blank /\ l = 1
+TInit == Blank /\ l = 1 /\ cost = [i \in AllIds |-> 0]
 
 NodeOf(id) == CHOOSE n \in Range(Ln.state) : n.id = id
 CapOf(id) == IF \E n \in Range(Ln.state) : n.id = id THEN NodeOf(id).cap ELSE 0
@@ -89,30 +90,31 @@ Refused(ln) == /\ l' = l + 1 /\ ln.ret = 0 /\ ret' = 0 /\ UNCHANGED <<live, item
 TOp == /\ l <= Len(TraceLog) /\ Ln.e = "op"
        /\ IF Ln.x > 0 THEN Refused(Ln) ELSE Step(Ln)
        /\ StateMatches(Ln)
-       /\ (Judge = "C12" /\ Ln.name \in {"Push", "MovePush", "Set", "MapAdd", "AddChunk"}) => Ln.re = grows'[Ln.a[1]] - grows[Ln.a[1]]
-       /\ (Judge = "C12" /\ Ln.name \in {"Replace", "Get"}) => Ln.re = 0
+       /\ cost' = IF Ln.name \in {"Push", "MovePush", "Set", "MapAdd", "AddChunk"} THEN [cost EXCEPT ![Ln.a[1]] = @ + Ln.re] ELSE cost
+       /\ (Judge = "C12" /\ Ln.name \in {"Replace", "Get"}) => Ln.re = 0          \* looking at or replacing a member moves nothing
 
 (* end of a history: the client has dropped every reference: nothing obtained through the allocator remains *)
 TEnd == /\ l <= Len(TraceLog) /\ Ln.e = "end" /\ l' = l + 1
         /\ live = {} /\ \A i \in DOMAIN client : client[i] = 0
         /\ (Judge = "C04" => Ln.live = 0 /\ Ln.foreign = 0)
-        /\ UNCHANGED ivars
+        /\ UNCHANGED <<ivars, cost>>
 TReset == /\ l <= Len(TraceLog) /\ Ln.e = "Reset" /\ l' = l + 1
           /\ live' = {} /\ item' = [i \in AllIds |-> Dead] /\ client' = [i \in AllIds |-> 0]
-          /\ bad' = FALSE /\ grows' = [i \in AllIds |-> 0] /\ ret' = 0
+          /\ bad' = FALSE /\ grows' = [i \in AllIds |-> 0] /\ ret' = 0 /\ cost' = [i \in AllIds |-> 0]
 
 (* n insertions into an indefinite container, capacity logged at every change (C12 growth clause) *)
 TGrow == /\ l <= Len(TraceLog) /\ Ln.e = "grow" /\ l' = l + 1
          /\ Ln.refused = 0 /\ Ln.size = Ln.n                       \* accepts any number of entries
          /\ Ln.shrunk = 0 /\ Ln.over = 0 /\ Ln.wrong = 0           \* never shrinks, size within capacity, contents in order
          /\ Ln.reallocs <= 2 * Log2Ceil(Ln.n + 1) + 2                \* logarithmic number of reallocations
-         /\ Ln.reallocs = Len(Ln.caps)
          /\ \A k \in 1..Len(Ln.caps) : Ln.caps[k][2] >= Ln.caps[k][1] /\ (k > 1 => Ln.caps[k][2] > Ln.caps[k - 1][2])
          /\ Ln.leaf_rc = (IF Ln.kind = 1 THEN 2 * Ln.n ELSE Ln.n) + 1 /\ Ln.leaf_rc_after = 1 /\ Ln.live = 0
-         /\ UNCHANGED ivars
+         /\ UNCHANGED <<ivars, cost>>
 
 TNext == TOp \/ TEnd \/ TReset \/ TGrow
 TSpec == TInit /\ [][TNext]_tvars
 
 GrowthLogarithmic == \A i \in live : grows[i] <= 2 * Log2Ceil(Size(i) + 1) + 2
+(* what the allocator actually saw (whatever the capacity field says): logarithmic in the number of members *)
+CostLogarithmic == \A i \in live : cost[i] <= 2 * Log2Ceil(Size(i) + 1) + 2
 =============================================================================
